@@ -470,9 +470,10 @@ class Session(BaseSession):
 
         These very common, as many clients execute commands like SELECT DATABASE() when connecting.
         """
+        # A SELECT without FROM reads no table, whatever other clauses it carries
         if isinstance(q.expression, exp.Select) and not any(
             q.expression.args.get(a)
-            for a in set(exp.Select.arg_types) - {"expressions", "limit", "hint"}
+            for a in ("from_", "from", "joins", "laterals", "into")
         ):
             result = execute(q.expression)
             return result.rows, result.columns
